@@ -1,6 +1,6 @@
 (* C09 Accepted programs are well formed; malformed ones never compile silently. *)
 From Coq Require Import List String.
-From PC Require Import Comp.Syntax Comp.Struct Comp.StructProofs Comp.Compile Comp.Denote Comp.EmitProofs Comp.WfCheck Comp.WfPil.
+From PC Require Import Comp.Syntax Comp.Struct Comp.StructProofs Comp.Compile Comp.Denote Comp.EmitProofs Comp.WfCheck Comp.WfPil Comp.CompileProofs.
 Import ListNotations.
 
 (* whenever output is produced for a well-formed object, the document passes the executable
@@ -25,3 +25,14 @@ Print Assumptions C09_compiled_struct_balanced.
 Theorem C09_domain_struct_balanced : forall s doms r, domain_expand s doms = OK r -> balanced r = true.
 Proof. exact domain_expand_balanced. Qed.
 Print Assumptions C09_domain_struct_balanced.
+
+(* end to end: whatever program the compile model accepts, the emitted document is well formed *)
+Theorem C09_accepted_wf_pil : forall ctr prefix d body c ctr', forallb stmt_ok body = true ->
+  compile_comp ctr prefix d body = OK (c, ctr') -> wf_pil (emit_comp c) = true.
+Proof. exact compile_emit_wf_pil. Qed.
+Print Assumptions C09_accepted_wf_pil.
+
+(* the hypothesis on identifiers is a decidable syntactic condition: not starting with _Anon *)
+Theorem C09_reserved_names : forall n, is_anon n = true <-> exists t, n = String.append "_Anon" t.
+Proof. exact is_anon_spec. Qed.
+Print Assumptions C09_reserved_names.
